@@ -29,6 +29,13 @@ def warm():
 
 # ---- plan side -------------------------------------------------------------------------------------
 def gen_params(rng, kind, small=False, big=False):
+    p = _gen_params(rng, kind, small, big)
+    if rng.chance(0.2):
+        p["types"] = "numpy"
+    return p
+
+
+def _gen_params(rng, kind, small=False, big=False):
     if kind in ("FT", "FTSH"):
         return {"r0": round(rng.logu(0.05, 0.5), 4), "N": rng.choice([128, 100, 65]) if big else rng.choice([8, 16, 32, 9, 12] if small else [8, 16, 32, 64, 9, 12]),
                 "delta": round(rng.logu(0.01, 0.5), 4), "L0": round(rng.logu(5, 100), 3), "l0": round(rng.logu(0.001, 0.05), 5)}
@@ -55,20 +62,30 @@ def make_seed(spec):
             return [int(x) for x in spec["seq"]]
         if "gen" in spec:
             return numpy.random.Generator(numpy.random.PCG64(int(spec["gen"])))
+        if "np" in spec:
+            return numpy.int64(spec["np"])          # the same seed as a numpy integer
     return int(spec)
+
+
+def _t(p, key):
+    """a parameter in the type the plan asks for (python number by default, numpy scalar when p['types'] == 'numpy')"""
+    v = p[key]
+    if p.get("types") == "numpy":
+        return numpy.int64(v) if isinstance(v, int) else numpy.float64(v)
+    return v
 
 
 def call_finite(kind, p, seed):
     ps = warm()["ps"]
     f = ps.ft_phase_screen if kind == "FT" else ps.ft_sh_phase_screen
-    return f(p["r0"], p["N"], p["delta"], p["L0"], p["l0"], seed=seed)
+    return f(_t(p, "r0"), _t(p, "N"), _t(p, "delta"), _t(p, "L0"), _t(p, "l0"), seed=seed)
 
 
 def construct_infinite(kind, p, seed):
     ips = warm()["ips"]
     if kind == "VK":
-        return ips.PhaseScreenVonKarman(p["nx"], p["px"], p["r0"], p["L0"], random_seed=seed, n_columns=p["ncol"])
-    return ips.PhaseScreenKolmogorov(p["nx"], p["px"], p["r0"], p["L0"], random_seed=seed, stencil_length_factor=p["slf"])
+        return ips.PhaseScreenVonKarman(_t(p, "nx"), _t(p, "px"), _t(p, "r0"), _t(p, "L0"), random_seed=seed, n_columns=_t(p, "ncol"))
+    return ips.PhaseScreenKolmogorov(_t(p, "nx"), _t(p, "px"), _t(p, "r0"), _t(p, "L0"), random_seed=seed, stencil_length_factor=_t(p, "slf"))
 
 
 def abytes(a):
